@@ -1,10 +1,13 @@
 """Shared by C04 and C14: the real Simulator on the linear family x' = kin - k*x, driven by operations of
 spec/Simulator.tla; projection of results onto the specification's state; closed-form flow evaluation.
 
-Units: the specification counts time in integer ticks and parameter values in integer units; here one tick is
-TS model-time units and one parameter unit is PS (both dyadic, so every float below is exact).  A time of the
-specification is {"b": base, "o": ticks}: base 0 is model time zero, base j > 0 is the time stamp of the j-th
-steady-state point (bound when the real call returns it).
+Units: the specification counts time in integer ticks plus "epsilons" (just after) and parameter values in
+integer units.  A Rendering fixes what they are in model time: SMALL (tick 0.5, epsilon 2^-20, unit 1/64: every
+float exact) and LARGE (tick 600, epsilon 1e-3, unit 1/76800: the same k*dt per tick, so the closed form stays
+well-conditioned, but absolute times of thousands where an epsilon is a relative 1e-6).  A time of the
+specification is {"b": base, "o": ticks, "e": epsilons}: base 0 is model time zero, base j > 0 is the time stamp
+of the j-th steady-state point (bound when the real call returns it).  Recorded traces write a time as the single
+integer 1000 * ticks + epsilons.
 """
 
 from __future__ import annotations
@@ -12,8 +15,22 @@ from __future__ import annotations
 import math
 import random
 
-TS = 0.5          # model time per tick
-PS = 1.0 / 64.0   # parameter value per unit
+from dataclasses import dataclass
+
+
+@dataclass(frozen=True)
+class Rendering:
+    name: str
+    ts: float    # model time per tick
+    eps: float   # model time per epsilon
+    ps: float    # parameter value per unit
+
+
+SMALL = Rendering("small", 0.5, 2.0 ** -20, 1.0 / 64.0)
+LARGE = Rendering("large", 600.0, 1e-3, 1.0 / 76800.0)
+RENDERINGS = {"small": SMALL, "large": LARGE}
+TS = SMALL.ts     # (kept for callers that only know the exact rendering)
+PS = SMALL.ps
 X0 = 4.0          # initial value of x
 P0 = {"kin": 128, "kk": 64}
 REL = 1e-6        # DESIGN.md section 4, rule 3: after an ODE solve
@@ -29,10 +46,11 @@ def outflux(k, x):
     return k * x
 
 
-def make_model(x0: float = X0, p: dict | None = None):
+def make_model(x0: float = X0, p: dict | None = None, r: Rendering = SMALL):
     from mxlpy import Model
 
     p = p or P0
+    PS = r.ps  # noqa: N806
     return (
         Model()
         .add_variables({"x": x0})
@@ -61,20 +79,27 @@ def tclose(a: float, b: float) -> bool:
 class Run:
     """One real Simulator driven by specification operations."""
 
-    def __init__(self):
+    def __init__(self, r: Rendering = SMALL):
         from mxlpy import Simulator
 
-        self.model = make_model()
+        self.r = r
+        self.model = make_model(r=r)
         self.sim = Simulator(self.model)
         self.bases = {0: 0.0}
+        self.touched = False     # the history has read the computed views of a result
 
     def t(self, tm: dict) -> float:
-        return self.bases[tm["b"]] + tm["o"] * TS
+        return self.bases[tm["b"]] + tm["o"] * self.r.ts + tm.get("e", 0) * self.r.eps
+
+    def off(self, v: int) -> float:
+        """A relative offset written as 1000 * ticks + epsilons."""
+        return (v // 1000) * self.r.ts + (v % 1000) * self.r.eps
 
     def protocol(self, steps):
         from mxlpy import make_protocol
 
-        return make_protocol([(s["d"] * TS, {"kin": s["p"]["kin"] * PS, "k": s["p"]["kk"] * PS}) for s in steps])
+        r = self.r
+        return make_protocol([(s["d"] * r.ts, {"kin": s["p"]["kin"] * r.ps, "k": s["p"]["kk"] * r.ps}) for s in steps])
 
     def apply(self, op: dict) -> dict:
         """Perform the call; returns {'raised': bool, 'exc': class name or None}."""
@@ -89,26 +114,29 @@ class Run:
                 s.simulate_protocol(self.protocol(op["steps"]), time_points_per_step=op["n"])
             elif k == "ptc":
                 if op["rel"]:
-                    s.simulate_protocol_time_course(self.protocol(op["steps"]), [o * TS for o in op["rpts"]],
+                    s.simulate_protocol_time_course(self.protocol(op["steps"]), [self.off(o) for o in op["rpts"]],
                                                     time_points_as_relative=True)
                 else:
                     s.simulate_protocol_time_course(self.protocol(op["steps"]), [self.t(q) for q in op["pts"]])
             elif k == "upd":
-                s.update_parameter(op["name"], op["v"] * PS)
+                s.update_parameter(op["name"], op["v"] * self.r.ps)
             elif k == "ov":
                 s.update_variable("x", float(op["v"]))
             elif k == "ss":
                 s.simulate_to_steady_state()
                 obs = self.observe()
                 if obs is not None and obs and op["tau"]["b"] != 0:
-                    self.bases[op["tau"]["b"]] = obs[-1]["t"][-1] - op["tau"]["o"] * TS
+                    self.bases[op["tau"]["b"]] = obs[-1]["t"][-1] - op["tau"]["o"] * self.r.ts
             elif k == "clear":
                 s.clear_results()
             elif k == "read":
+                # GetResult: the result is fetched AND its computed views are read
                 r = s.get_result()
                 if not isinstance(r.value, Exception):
                     _ = r.value.variables
                     _ = r.value.fluxes
+                    _ = r.value.get_args()
+                    self.touched = True
             else:  # pragma: no cover
                 raise AssertionError(f"unknown op {k}")
         except AssertionError:
@@ -130,13 +158,18 @@ class Run:
                         "p": {kk: float(v) for kk, v in p.items()}})
         return out
 
-    def fluxes(self):
+    def views(self):
+        """The computed views of a freshly fetched result (this is itself a read)."""
         r = self.sim.get_result()
         if isinstance(r.value, Exception):
             return None
-        fl = r.value.fluxes
-        return {"t": [float(v) for v in fl.index], "vin": [float(v) for v in fl["vin"].to_numpy()],
-                "vout": [float(v) for v in fl["vout"].to_numpy()]}
+        res = r.value
+        va, fl, ar = res.variables, res.fluxes, res.get_args()
+        self.touched = True
+        return {"variables": {"t": [float(v) for v in va.index], "x": [float(v) for v in va["x"].to_numpy()]},
+                "fluxes": {"t": [float(v) for v in fl.index], "vin": [float(v) for v in fl["vin"].to_numpy()],
+                           "vout": [float(v) for v in fl["vout"].to_numpy()]},
+                "args": {"t": [float(v) for v in ar.index], "x": [float(v) for v in ar["x"].to_numpy()]}}
 
 
 # ---- comparison of an observed result with the specification's state -----------------------------------------
@@ -169,7 +202,7 @@ def compare(run: Run, pst: dict, obs, stats: dict | None = None) -> dict | None:
         if not same:
             return {"what": "index", "segment": i, "expected": et, "observed": ot,
                     "observed_index": [x["t"] for x in obs]}
-        ep = {"kin": g["p"]["kin"] * PS, "k": g["p"]["kk"] * PS}
+        ep = {"kin": g["p"]["kin"] * run.r.ps, "k": g["p"]["kk"] * run.r.ps}
         if set(o["p"]) != set(ep) or any(not tclose(o["p"][n], ep[n]) for n in ep):
             return {"what": "parameters", "segment": i, "expected": ep, "observed": o["p"]}
     # values: walk the history
@@ -194,7 +227,7 @@ def compare(run: Run, pst: dict, obs, stats: dict | None = None) -> dict | None:
         hi += 1
         if x is None:
             continue
-        kin, k = g["p"]["kin"] * PS, g["p"]["kk"] * PS
+        kin, k = g["p"]["kin"] * run.r.ps, g["p"]["kk"] * run.r.ps
         t0 = run.t(g["t0"])
         ts = o["t"]
         loose = frec["k"] == "ss"
@@ -214,42 +247,74 @@ def compare(run: Run, pst: dict, obs, stats: dict | None = None) -> dict | None:
     return None
 
 
-def compare_fluxes(run: Run, pst: dict, obs) -> dict | None:
-    """Fluxes reported at a point use the values in force during that point's segment."""
-    fl = run.fluxes()
-    if fl is None or obs is None:
+def compare_views(run: Run, pst: dict, obs) -> dict | None:
+    """The computed views of the result (variables, fluxes, args) cover the whole accumulated axis, repeat the
+    raw states, and fluxes reported at a point use the values in force during that point's segment."""
+    vw = run.views()
+    if vw is None or obs is None:
         return None
+    PS = run.r.ps  # noqa: N806
     rows = [(tv, xv, g["p"]) for g, o in zip(pst["segs"], obs) for tv, xv in zip(o["t"], o["x"])]
-    if len(rows) != len(fl["t"]):
-        return {"what": "fluxes-rows", "expected": len(rows), "observed": len(fl["t"])}
-    for (tv, xv, p), ft, vin, vout in zip(rows, fl["t"], fl["vin"], fl["vout"]):
-        if not tclose(tv, ft):
-            return {"what": "fluxes-index", "expected": tv, "observed": ft}
+    for name in ("variables", "args", "fluxes"):
+        got = vw[name]["t"]
+        if len(got) != len(rows) or any(not tclose(a, r[0]) for a, r in zip(got, rows)):
+            return {"what": "views-index", "view": name, "expected": [r[0] for r in rows], "observed": got}
+    for name in ("variables", "args"):
+        for (tv, xv, _), gx in zip(rows, vw[name]["x"]):
+            if not close(gx, xv, 1e-12, 0.0):
+                return {"what": "views-values", "view": name, "time": tv, "expected": xv, "observed": gx}
+    fl = vw["fluxes"]
+    for (tv, xv, p), vin, vout in zip(rows, fl["vin"], fl["vout"]):
         if not tclose(vin, p["kin"] * PS) or not close(vout, p["kk"] * PS * xv, 1e-9, 1e-12):
             return {"what": "fluxes", "time": tv, "expected": {"vin": p["kin"] * PS, "vout": p["kk"] * PS * xv},
                     "observed": {"vin": vin, "vout": vout}}
     return None
 
 
-def replay_history(hist_steps: list, *, fluxes_at_end: bool = True) -> tuple[dict | None, dict]:
-    """Drive one emitted behaviour through the real Simulator; compare after every step."""
-    run = Run()
+def has_eps(hist_steps: list) -> bool:
+    """Does the history ask for a point just after a boundary / the time reached?"""
+    for s in hist_steps:
+        op = s["op"]
+        if any(q.get("e", 0) for q in op.get("pts", []) if isinstance(q, dict)) or \
+                any(v % 1000 for v in op.get("rpts", [])) or op.get("te", {}).get("e", 0):
+            return True
+    return False
+
+
+def replay_history(hist_steps: list, *, views_at_end: bool = True, r: Rendering = SMALL) -> tuple[dict | None, dict]:
+    """Drive one emitted behaviour through the real Simulator; compare after every step.  Raw results are compared
+    after every call; the computed views as well once the history itself has read them (operation "read"), and
+    always at the end."""
+    run = Run(r)
     stats: dict = {}
     obs = None
     for j, step in enumerate(hist_steps):
         got = run.apply(step["op"])
         if got["raised"] != step["raised"]:
             return ({"what": "raised", "step": j, "expected_raised": step["raised"], "observed": got,
-                     "observed_index": [o["t"] for o in (run.observe() or [])]}, stats)
+                     "rendering": r.name, "observed_index": [o["t"] for o in (run.observe() or [])]}, stats)
         obs = run.observe()
         bad = compare(run, step["st"], obs, stats)
+        if bad is None and run.touched:
+            bad = compare_views(run, step["st"], obs)
         if bad:
-            return ({**bad, "step": j}, stats)
-    if fluxes_at_end and hist_steps:
-        bad = compare_fluxes(run, hist_steps[-1]["st"], obs)
+            return ({**bad, "step": j, "rendering": r.name}, stats)
+    if views_at_end and hist_steps:
+        bad = compare_views(run, hist_steps[-1]["st"], obs)
         if bad:
-            return ({**bad, "step": len(hist_steps) - 1}, stats)
+            return ({**bad, "step": len(hist_steps) - 1, "rendering": r.name}, stats)
     return None, stats
+
+
+def replay_renderings(hist_steps: list) -> tuple[dict | None, dict]:
+    """Exact rendering always; histories with an epsilon point (and no steady-state run, whose search length
+    depends on the time scale) also at large absolute times."""
+    bad, stats = replay_history(hist_steps)
+    if bad is None and has_eps(hist_steps) and all(s["op"]["k"] != "ss" for s in hist_steps):
+        bad, st2 = replay_history(hist_steps, r=LARGE)
+        stats = {"n": stats.get("n", 0) + st2.get("n", 0), "worst": max(stats.get("worst", 0.0), st2.get("worst", 0.0)),
+                 "large": 1}
+    return bad, stats
 
 
 # ---- shapes of failing histories (keys of known findings) ---------------------------------------------------
@@ -268,6 +333,8 @@ def classify(hist_steps: list, detail: dict) -> str | None:
     before = ops[start:j]
     cur = ops[j]
     book = ("raised", "index", "axis-not-increasing", "segment-count", "trace")
+    if "read" in before and what in ("views-index", "views-values"):
+        return "views-stale-after-continuation"
     if "ss" in before and cur in ADVANCING + ("ss",) and what in book + ("values",):
         return "continue-after-steady-state"
     if cur == "ss" and what in ("values", "trace") and any(k in ADVANCING for k in before):
@@ -285,19 +352,24 @@ def classify(hist_steps: list, detail: dict) -> str | None:
 
 
 # ---- code -> spec: a seeded random driver that records what the real Simulator does --------------------------
-def to_ticks(v: float):
-    q = v / TS
-    r = round(q)
-    return int(r) if abs(q - r) <= 1e-9 * max(1.0, abs(q)) else None
+def to_ticks(v: float, r: Rendering = SMALL):
+    """Model time -> 1000 * ticks + epsilons, or None when it is not on the grid."""
+    o = round(v / r.ts)
+    rem = v - o * r.ts
+    e = round(rem / r.eps)
+    if not (0 <= e < 1000) or abs(rem - e * r.eps) > max(0.01 * r.eps, 8 * math.ulp(max(1.0, abs(v)))):
+        return None
+    return int(o) * 1000 + int(e)
 
 
-def to_units(v: float):
-    q = v / PS
-    r = round(q)
-    return int(r) if abs(q - r) <= 1e-9 * max(1.0, abs(q)) else None
+def to_units(v: float, r: Rendering = SMALL):
+    q = v / r.ps
+    u = round(q)
+    return int(u) if abs(q - u) <= 1e-9 * max(1.0, abs(q)) else None
 
 
 PAR_CHOICES = [(128, 64), (64, 128), (192, 32), (128, 16), (32, 64), (64, 4)]
+DEFAULT_WEIGHTS = {"sim": 5, "tc": 4, "proto": 2, "ptc": 3, "upd": 3, "ov": 3, "ss": 1, "clear": 1, "read": 2}
 
 
 def random_steps(rnd: random.Random, nmax: int = 4) -> list:
@@ -310,19 +382,24 @@ def random_steps(rnd: random.Random, nmax: int = 4) -> list:
 
 
 def random_op(rnd: random.Random, now: int, weights: dict | None = None) -> dict:
-    """An operation in the flat (base 0) form used by recorded traces; times in ticks."""
-    w = weights or {"sim": 5, "tc": 4, "proto": 2, "ptc": 3, "upd": 3, "ov": 3, "ss": 1, "clear": 1, "read": 0}
+    """An operation in the flat (base 0) form used by recorded traces; times as 1000 * ticks + epsilons."""
+    w = weights or DEFAULT_WEIGHTS
     kinds = [k for k, v in w.items() for _ in range(v)]
     k = rnd.choice(kinds)
     if k == "sim":
+        if rnd.random() < 0.12:
+            return {"k": "sim", "te": now + 1, "n": 1}          # to just after the time reached
         n = rnd.choice([1, 1, 2, 3, 4])
         d = n * rnd.randint(1, 3) if rnd.random() < 0.75 else -n * rnd.randint(0, 2)
-        return {"k": "sim", "te": now + d, "n": n}
+        return {"k": "sim", "te": now + 1000 * d, "n": n}
     if k == "tc":
-        lo = now + rnd.randint(-3, 2)
-        pts = sorted(rnd.sample(range(lo, lo + 9), rnd.randint(1, 5)))
+        lo = rnd.randint(-3, 2)
+        offs = sorted(rnd.sample(range(lo, lo + 9), rnd.randint(1, 5)))
         if rnd.random() < 0.15:
-            pts = [q - 6 for q in pts]
+            offs = [q - 6 for q in offs]
+        pts = [now + 1000 * q for q in offs]
+        if rnd.random() < 0.3:
+            pts = sorted(set(pts + [now + 1]))                   # a point just after the time reached
         return {"k": "tc", "pts": pts}
     if k == "proto":
         n = rnd.choice([1, 2])
@@ -333,8 +410,15 @@ def random_op(rnd: random.Random, now: int, weights: dict | None = None) -> dict
     if k == "ptc":
         steps = random_steps(rnd)
         total = sum(s["d"] for s in steps)
-        cand = list(range(-2, total + 4))
-        pts = sorted(rnd.sample(cand, rnd.randint(1, min(6, len(cand)))))
+        cand = [1000 * q for q in range(-2, total + 4)]
+        pts = rnd.sample(cand, rnd.randint(1, min(6, len(cand))))
+        if rnd.random() < 0.4:                                   # points just after the start / a step boundary
+            cum, bounds = 0, [0]
+            for s in steps:
+                cum += s["d"]
+                bounds.append(cum)
+            pts += [1000 * b + 1 for b in rnd.sample(bounds, rnd.randint(1, len(bounds)))]
+        pts = sorted(set(pts))
         if rnd.random() < 0.1:
             pts = [q for q in pts if q <= 0] or [0]
         rel = rnd.random() < 0.5
@@ -348,9 +432,9 @@ def random_op(rnd: random.Random, now: int, weights: dict | None = None) -> dict
 
 
 def flat_to_spec_op(op: dict) -> dict:
-    """Trace-form operation (integer ticks, base 0) -> the form Run.apply understands."""
-    def tm(o):
-        return {"b": 0, "o": o}
+    """Trace-form operation (times as 1000 * ticks + epsilons, base 0) -> the form Run.apply understands."""
+    def tm(v):
+        return {"b": 0, "o": v // 1000, "e": v % 1000}
 
     k = op["k"]
     if k == "sim":
@@ -366,11 +450,19 @@ def flat_to_spec_op(op: dict) -> dict:
     return op
 
 
-def record_trace(seed, length: int, weights: dict | None = None, ops: list | None = None) -> dict:
+def record_trace(seed, length: int, weights: dict | None = None, ops: list | None = None,
+                 rendering: str | None = None) -> dict:
     """Run a random call sequence (or the given one) on the real Simulator and log what it did (no
-    specification involved)."""
+    specification involved).  About a third of the random sequences run at large absolute times (no steady-state
+    runs there: the length of the search depends on the time scale)."""
     rnd = random.Random(seed)
-    run = Run()
+    if rendering is None:
+        rendering = "large" if rnd.random() < 0.35 else "small"
+    r = RENDERINGS[rendering]
+    weights = dict(weights or DEFAULT_WEIGHTS)
+    if r is LARGE:
+        weights["ss"] = 0
+    run = Run(r)
     ev = []
     offgrid = None
     values = []
@@ -378,28 +470,40 @@ def record_trace(seed, length: int, weights: dict | None = None, ops: list | Non
         obs = run.observe()
         now = 0
         if obs:
-            now = to_ticks(obs[-1]["t"][-1])
+            now = to_ticks(obs[-1]["t"][-1], r)
             if now is None:
-                offgrid = "time reached is not on the tick grid"
+                offgrid = "time reached is not on the grid"
                 break
         op = random_op(rnd, now, weights) if ops is None else {k: v for k, v in ops[step].items() if k != "tau"}
-        if ops is not None and op["k"] == "sim" and op["te"] > now and (op["te"] - now) % op["n"]:
+        if op["k"] == "sim" and op["n"] > 1 and op["te"] > now and ((op["te"] - now) % 1000 or ((op["te"] - now) // 1000) % op["n"]):
+            if ops is None:  # pragma: no cover
+                raise AssertionError("driver produced an off-grid linspace")
             break   # replaying calls recorded on another tree: this linspace is off the tick grid here, stop before it
         got = run.apply(flat_to_spec_op(op))
         obs = run.observe()
         segs = []
         for o in obs or []:
-            tt = [to_ticks(v) for v in o["t"]]
-            kin, kk = to_units(o["p"].get("kin", float("nan"))), to_units(o["p"].get("k", float("nan")))
+            tt = [to_ticks(v, r) for v in o["t"]]
+            kin, kk = to_units(o["p"].get("kin", float("nan")), r), to_units(o["p"].get("k", float("nan")), r)
             if any(v is None for v in tt) or kin is None or kk is None:
                 offgrid = f"observation off the grid: {o['t']} {o['p']}"
                 break
             segs.append({"times": tt, "kin": kin, "kk": kk})
+        views = []
+        if run.touched and not offgrid:
+            vw = run.views()
+            if vw is not None:
+                idx = [to_ticks(v, r) for v in vw["variables"]["t"]]
+                same = all(vw[n]["t"] == vw["variables"]["t"] for n in ("fluxes", "args"))
+                if any(v is None for v in idx) or not same:
+                    offgrid = f"views off the grid or with different indexes: {vw['variables']['t']} {vw['fluxes']['t']}"
+                views = idx
         if offgrid:
-            ev.append({"op": op, "raised": got["raised"], "segs": [], "err": obs is None})
+            ev.append({"op": op, "raised": got["raised"], "segs": [], "err": obs is None, "vread": False, "views": []})
             break
         if op["k"] == "ss":
             op = {**op, "tau": segs[-1]["times"][-1] if (segs and not got["raised"]) else 0}
-        ev.append({"op": op, "raised": got["raised"], "segs": segs, "err": obs is None})
+        ev.append({"op": op, "raised": got["raised"], "segs": segs, "err": obs is None, "vread": run.touched,
+                   "views": views})
         values = [o["x"] for o in obs or []]
-    return {"seed": str(seed), "ev": ev, "offgrid": offgrid, "values": values}
+    return {"seed": str(seed), "ev": ev, "offgrid": offgrid, "values": values, "rendering": rendering}
